@@ -59,6 +59,13 @@ func main() {
 	if err != nil {
 		fail(err)
 	}
+	if hasErrors(pkgs) {
+		// the tagged introspection hook may no longer compile (a renamed field): the library itself is what counts
+		cfg.BuildFlags = nil
+		if pkgs, err = packages.Load(cfg, "./..."); err != nil {
+			fail(err)
+		}
+	}
 	replace := map[string]string{}
 	sites := 0
 	for _, pkg := range pkgs {
@@ -152,6 +159,15 @@ func main() {
 		fail(err)
 	}
 	fmt.Println(sites)
+}
+
+func hasErrors(pkgs []*packages.Package) bool {
+	for _, p := range pkgs {
+		if len(p.Errors) > 0 {
+			return true
+		}
+	}
+	return false
 }
 
 // simpleExpr: identifiers and selector chains can be evaluated repeatedly
